@@ -955,6 +955,8 @@ def replay(rp):
 
 
 def run(prop, tier):
+    if prop in ("C14", "C16"):      # (C15 uses column names that are not valid UTF-8: protobuf strings cannot carry them)
+        os.environ.setdefault("VERIF_FRONT", "mix")
     res = Result(prop, tier)
     salt = {"C14": 14, "C15": 15, "C16": 16}[prop]
     rng = random.Random(vlib.seed() * 7919 + salt)
